@@ -14,28 +14,40 @@ use crate::repofile::packfile::verif_harness as pvh;
 // ---------------------------------------------------------------------------
 const PAYLOAD: usize = 2;
 const BLOB: usize = PAYLOAD + 32;
-const HDR: usize = 2 * 37 + 32;
-const PACK: usize = 2 * BLOB + HDR + 4;
+const PACK_U: usize = 2 * BLOB + (37 + 37 + 32) + 4;
+const PACK_C: usize = 2 * BLOB + (37 + 41 + 32) + 4;
 
 fn any_id2() -> Id { let mut r = [0u8; 32]; r[0] = kani::any(); r[1] = kani::any(); Id::new(r) }
 
-fn check_pack_case<const REJECT: bool>() {
+/// COMP: the second blob is a compressed one (zstd model: 0xFD || data), its recorded uncompressed length symbolic
+fn check_pack_case<const REJECT: bool, const COMP: bool, const PACK: usize>() {
+    let hdr: usize = PACK - 2 * BLOB - 4;
+    let plain: usize = hdr - 32;
     let ids = [any_id2(), any_id2()];
     let tpe = if kani::any() { BlobType::Tree } else { BlobType::Data };
     let pack_id = any_id2();
+    let ul: u32 = kani::any();
+    let ulen = if COMP { kani::assume(ul != 0); std::num::NonZeroU32::new(ul) } else { None };
     let index_pack = IndexPack {
         id: PackId::from(pack_id),
         // deliberately listed out of offset order: check_pack sorts
         blobs: vec![
-            IndexBlob { id: BlobId::from(ids[1]), tpe, location: BlobLocation { offset: BLOB as u32, length: BLOB as u32, uncompressed_length: None } },
+            IndexBlob { id: BlobId::from(ids[1]), tpe, location: BlobLocation { offset: BLOB as u32, length: BLOB as u32, uncompressed_length: ulen } },
             IndexBlob { id: BlobId::from(ids[0]), tpe, location: BlobLocation { offset: 0, length: BLOB as u32, uncompressed_length: None } },
         ],
         time: None,
         size: None,
     };
     let bytes: [u8; PACK] = kani::any();
-    // bound: the two trailer entries are uncompressed ones (type byte 0 or 1)
-    kani::assume(bytes[2 * BLOB + 16] <= 1 && bytes[2 * BLOB + 16 + 37] <= 1);
+    // bound: the kinds of the two trailer entries (uncompressed: type byte 0/1, compressed: 2/3) are the shape's
+    kani::assume(bytes[2 * BLOB + 16] <= 1);
+    if COMP {
+        kani::assume(bytes[2 * BLOB + 16 + 37] == 2 || bytes[2 * BLOB + 16 + 37] == 3);
+        // an authentic compressed blob is a well-formed compressed stream (check_pack unwraps the decoder's result)
+        kani::assume(bytes[BLOB + 16] == 0xFD);
+    } else {
+        kani::assume(bytes[2 * BLOB + 16 + 37] <= 1);
+    }
     let data = Bytes::copy_from_slice(&bytes);
     let rec = Arc::new(vh::NullBe::new());
     let be = DecryptBackend::new(rec.clone() as Arc<dyn WriteBackend>, FlagKey::<REJECT>);
@@ -49,20 +61,31 @@ fn check_pack_case<const REJECT: bool>() {
         // the file is the one the index names
         assert!(vh::stub_hash(&bytes) == pack_id);
         // the trailer length and the trailer agree with the index
-        assert!(u32::from_le_bytes([bytes[PACK - 4], bytes[PACK - 3], bytes[PACK - 2], bytes[PACK - 1]]) == HDR as u32);
-        let t = &bytes[2 * BLOB + 16..2 * BLOB + 16 + 74];
+        assert!(u32::from_le_bytes([bytes[PACK - 4], bytes[PACK - 3], bytes[PACK - 2], bytes[PACK - 1]]) == hdr as u32);
+        let t = &bytes[2 * BLOB + 16..2 * BLOB + 16 + plain];
         let h0 = pvh::ref_entry(t, 0, 0);
-        let h1 = pvh::ref_entry(t, 37, BLOB as u32);
+        let h1 = if COMP { pvh::ref_entry_comp(t, 37, BLOB as u32) } else { pvh::ref_entry(t, 37, BLOB as u32) };
         assert!(h0.location.length == BLOB as u32 && h1.location.length == BLOB as u32);
         assert!(h0.tpe == tpe && h1.tpe == tpe && *h0.id == ids[0] && *h1.id == ids[1]);
+        assert!(h1.location.uncompressed_length == ulen);
         // every blob, read where the index says it is (as restore does), has the content its id names
         assert!(vh::stub_hash(&bytes[16..16 + PAYLOAD]) == ids[0]);
-        assert!(vh::stub_hash(&bytes[BLOB + 16..BLOB + 16 + PAYLOAD]) == ids[1]);
+        if COMP {
+            // restore decompresses the payload behind the 0xFD marker and insists on the recorded length
+            assert!(ul as usize == PAYLOAD - 1);
+            assert!(vh::stub_hash(&bytes[BLOB + 17..BLOB + 16 + PAYLOAD]) == ids[1]);
+        } else {
+            assert!(vh::stub_hash(&bytes[BLOB + 16..BLOB + 16 + PAYLOAD]) == ids[1]);
+        }
     }
-    kani::cover!(REJECT || clean, "a clean pack exists (accepting key)");
-    kani::cover!(REJECT || (r.is_ok() && n_findings == 1), "a finding is reported (accepting key)");
-    kani::cover!(!REJECT || r.is_err(), "rejecting key: error returned");
+    c05_witness(REJECT, clean, r.is_ok(), r.is_err(), n_findings);
     std::mem::forget(r); std::mem::forget(collector); std::mem::forget(be); std::mem::forget(rec); std::mem::forget(p);
+}
+#[inline(never)]
+fn c05_witness(reject: bool, clean: bool, ok: bool, err: bool, n_findings: usize) {
+    kani::cover!(reject || clean, "a clean pack exists (accepting key)");
+    kani::cover!(reject || (ok && n_findings == 1), "a finding is reported (accepting key)");
+    kani::cover!(!reject || err, "rejecting key: error returned");
 }
 
 //@ harness: c05_check_pack_clean_means_intact
@@ -88,7 +111,7 @@ fn check_pack_case<const REJECT: bool>() {
 #[kani::stub(crate::crypto::hasher::hash, crate::error::verif_harness::stub_hash)]
 #[kani::stub(crate::repofile::packfile::PackHeader::from_binary, crate::repofile::packfile::verif_harness::stub_header_decode2)]
 #[kani::stub(crate::repofile::packfile::PackHeaderLength::from_binary, crate::repofile::packfile::verif_harness::stub_len_from_binary)]
-pub(crate) fn c05_check_pack_clean_means_intact() { check_pack_case::<false>(); }
+pub(crate) fn c05_check_pack_clean_means_intact() { check_pack_case::<false, false, PACK_U>(); }
 
 //@ harness: c05_check_pack_rejecting_key
 //@ prop: C05 C04
@@ -111,4 +134,30 @@ pub(crate) fn c05_check_pack_clean_means_intact() { check_pack_case::<false>(); 
 #[kani::stub(crate::crypto::hasher::hash, crate::error::verif_harness::stub_hash)]
 #[kani::stub(crate::repofile::packfile::PackHeader::from_binary, crate::repofile::packfile::verif_harness::stub_header_decode2)]
 #[kani::stub(crate::repofile::packfile::PackHeaderLength::from_binary, crate::repofile::packfile::verif_harness::stub_len_from_binary)]
-pub(crate) fn c05_check_pack_rejecting_key() { check_pack_case::<true>(); }
+pub(crate) fn c05_check_pack_rejecting_key() { check_pack_case::<true, false, PACK_U>(); }
+
+//@ harness: c05_check_pack_compressed_blob
+//@ prop: C05
+//@ tier: thorough
+//@ timeout: 2400
+//@ mem: 20
+//@ unwindset: hasher.*hash=190; stub_hash=190; decrypt_data=84
+//@ kernel: as c05_check_pack_clean_means_intact, plus the compressed-blob branch (decode + recorded-length comparison)
+//@ bound: as c05_check_pack_clean_means_intact with 182 symbolic bytes where the second blob is a compressed one (41-byte trailer entry; zstd model 0xFD || data; the recorded uncompressed length is symbolic)
+//@ oracle: as c05_check_pack_clean_means_intact; for the compressed blob additionally: the recorded uncompressed length is the decompressed length, and the hash of the decompressed content is the blob id
+//@ stub: as c05_check_pack_clean_means_intact; zstd::stream::decode_all -> 0xFD framing; reference decoder for one uncompressed + one compressed entry
+//@ assume: as c05_check_pack_clean_means_intact; an authentic compressed blob is a well-formed compressed stream (check_pack unwraps the decoder's result)
+//@ outside: as c05_check_pack_clean_means_intact
+#[kani::proof]
+#[kani::unwind(40)]
+#[kani::stub(std::backtrace::Backtrace::capture, crate::error::verif_harness::stub_backtrace_capture)]
+#[kani::stub(alloc::fmt::format, crate::error::verif_harness::stub_format)]
+#[kani::stub(crate::error::RusticError::new, crate::error::verif_harness::stub_rustic_new)]
+#[kani::stub(crate::error::RusticError::attach_context, crate::error::verif_harness::stub_attach_context)]
+#[kani::stub(crate::error::RusticError::attach_source, crate::error::verif_harness::stub_attach_source)]
+#[kani::stub(alloc::string::ToString::to_string, crate::error::verif_harness::ToStringModel::to_string)]
+#[kani::stub(crate::crypto::hasher::hash, crate::error::verif_harness::stub_hash)]
+#[kani::stub(zstd::stream::decode_all, crate::error::verif_harness::stub_decode_all)]
+#[kani::stub(crate::repofile::packfile::PackHeader::from_binary, crate::repofile::packfile::verif_harness::stub_header_decode_uc)]
+#[kani::stub(crate::repofile::packfile::PackHeaderLength::from_binary, crate::repofile::packfile::verif_harness::stub_len_from_binary)]
+pub(crate) fn c05_check_pack_compressed_blob() { check_pack_case::<false, true, PACK_C>(); }
